@@ -4,6 +4,7 @@
     from /repo on every run).  Specs: Spec05.v. *)
 From XV Require Import C05.Spec05 C05.Model05 C05.Proofs05a C05.Proofs05b C05.Proofs05c C05.Proofs05d C05.Proofs05e C05.Proofs05f.
 From XV Require Import C05.Model05r C05.Proofs05r.
+From XV Require Import C05.Spec05s C05.Model05s C05.Proofs05s C05.Proofs05t.
 Local Open Scope N_scope.
 
 (** the specification itself is consistent: Table 3-6 (bit distribution) and Table 3-7 (well-formed
@@ -189,6 +190,92 @@ Print Assumptions T05_probe_bom4.
 Theorem T05_probe_utf8_bom : forall rest, probe (0xEF :: 0xBB :: 0xBF :: rest) = UTF_8.
 Proof. exact probe_utf8_bom. Qed.
 Print Assumptions T05_probe_utf8_bom.
+
+(** the recognizer as a DECISION: for every byte string of every length (also shorter than 2 or 4 bytes)
+    basicEncodingProbe returns exactly the family XML 1.0 Appendix F.1 prescribes (Spec05s.spec_detect) *)
+Theorem T05_probe_decision : forall raw, family_of_enc (probe raw) = spec_detect raw.
+Proof. exact probe_decision. Qed.
+Print Assumptions T05_probe_decision.
+
+Theorem T05_probe_unusual_orders : forall rest,
+  probe (0x00 :: 0x00 :: 0xFF :: 0xFE :: rest) = UTF_8 /\ probe (0xFE :: 0xFF :: 0x00 :: 0x00 :: rest) = UTF_16B.
+Proof. exact probe_unusual_orders. Qed.
+Print Assumptions T05_probe_unusual_orders.
+
+(** encoding names (tables regenerated from XMLUni.cpp / XMLRecognizer.cpp / TransService.cpp / XMLReader.cpp) *)
+Theorem T05_enc_name_roundtrip : forall e, e <> R_EBCDIC -> e <> R_Other ->
+  exists s, name_for_encoding e = Some s /\ encoding_for_name s = e /\ upper_ascii s = s /\
+            make_transcoder_name s = make_transcoder_enum e.
+Proof. exact enc_name_roundtrip. Qed.
+Print Assumptions T05_enc_name_roundtrip.
+
+(** for EVERY name: if encodingForName knows it, creating the transcoder by name and by the returned
+    enumerator is the same transcoder class with the same byte swapping *)
+Theorem T05_name_enum_agree : forall s e, encoding_for_name (upper_ascii s) = e -> e <> R_Other ->
+  make_transcoder_name s = make_transcoder_enum e.
+Proof. exact name_enum_agree. Qed.
+Print Assumptions T05_name_enum_agree.
+
+(** makeNewTranscoderFor: every registered alias, in any ASCII case, resolves to its own registration; the names
+    of the encodings the property lists resolve to the intrinsic transcoder of that encoding and byte order *)
+Theorem T05_alias_registered : forall k v s, In (k, v) ts_mappings -> upper_ascii s = k -> make_transcoder_name s = Some v.
+Proof. exact registered_alias_resolves. Qed.
+Print Assumptions T05_alias_registered.
+
+Theorem T05_alias_intrinsic : forall nm cls s, In (nm, cls) expected_intrinsic -> upper_ascii s = nm ->
+  make_transcoder_name s = Some cls.
+Proof. exact intrinsic_names_resolve. Qed.
+Print Assumptions T05_alias_intrinsic.
+
+Theorem T05_alias_case_insensitive : forall s t, upper_ascii s = upper_ascii t ->
+  make_transcoder_name s = make_transcoder_name t.
+Proof. exact make_transcoder_case. Qed.
+Print Assumptions T05_alias_case_insensitive.
+
+Example T05_nonvacuous_alias :
+  make_transcoder_name n_Utf16be_mixed = Some (4, true) /\ make_transcoder_name n_Shift_JIS = None.
+Proof. vm_compute. split; reflexivity. Qed.
+
+(** declaration vs. detected family (XMLReader::setEncoding).  [set_encoding true] is the reader with
+    fixes/C05-setencoding-family.patch, [set_encoding false] the reader as it stands.
+    Repaired: over the names of the specification, accepted <-> compatible with the detected family, and what is
+    accepted keeps the unit size and byte order; for every name at all, an accepted recognizer-known encoding
+    keeps the family. *)
+Theorem T05_decl_compat : forall f nm d s, In (nm, d) spec_names -> upper_ascii s = nm ->
+  (set_encoding true (renc_of_family f) s <> SE_Reject <-> compat f d = true) /\
+  (forall nb str tr, set_encoding true (renc_of_family f) s = SE_Accept nb str tr ->
+     family_code nb = family_code (renc_of_family f) /\ exists cls, tr = Some (cls, swapped_of_family f)).
+Proof. exact decl_compat. Qed.
+Print Assumptions T05_decl_compat.
+
+Theorem T05_decl_family_preserved : forall cur s nb str tr,
+  set_encoding true cur s = SE_Accept nb str tr -> nb <> R_Other -> family_code nb = family_code cur.
+Proof. exact set_encoding_family. Qed.
+Print Assumptions T05_decl_family_preserved.
+
+Example T05_nonvacuous_decl :
+  set_encoding true R_UTF_16B n_utf16_lower = SE_Accept R_UTF_16B n_UTF16BE_paren (Some (4, true)) /\
+  set_encoding true R_UTF_8 n_utf16_lower = SE_Reject /\
+  set_encoding true R_UTF_8 n_UTF16LE = SE_Reject.
+Proof. vm_compute. repeat split. Qed.
+
+(** the reader as it stands (finding F560): a declaration written in the bytes of one family that names an
+    encoding of another family is accepted and the decoder is switched *)
+Theorem T05_decl_compat_refuted :
+  exists cur s nb str tr, set_encoding false cur s = SE_Accept nb str tr /\ nb <> R_Other /\
+                          family_code nb <> family_code cur.
+Proof. exact decl_compat_refuted. Qed.
+Print Assumptions T05_decl_compat_refuted.
+
+(** finding F561 (not repaired): a byte encoding the recognizer does not list, declared in a UTF-16 entity *)
+Theorem T05_decl_other_refuted : forall b,
+  set_encoding b R_UTF_16L n_ISO88591 = SE_Accept R_Other n_ISO88591 (Some (3, false)).
+Proof. exact decl_other_refuted. Qed.
+Print Assumptions T05_decl_other_refuted.
+
+Theorem T05_decl_total : forall b cur s, cur <> R_Other -> set_encoding b cur s <> SE_Throw.
+Proof. exact set_encoding_no_throw. Qed.
+Print Assumptions T05_decl_total.
 
 (** non-vacuity: the hypotheses are satisfiable by non-trivial values, and the error branches are real *)
 Example T05_nonvacuous_scalars : Forall scalar [0x24; 0xA2; 0x20AC; 0x10348; 0x10FFFF].
